@@ -147,3 +147,45 @@ fn c14_frame_gumbel_f64() {
     vassert!(before == (d.location.to_bits(), d.scale.to_bits()), "sampling changed the distribution value");
     kani::cover!(rng.pos == 1, "sample returned");
 }
+
+// ---- C07: location/scale act as an exact affine map on the parameter-free draw -------------------
+macro_rules! c07_gumbel {
+    ($name:ident, $f:ty, $oc:ident) => {
+        vproof_free! {
+            fn $name() {
+                let mut rng = SymRng::new(1);
+                let w0 = rng.words[0];
+                let loc: $f = kani::any();
+                let scale: $f = kani::any();
+                let d = match Gumbel::<$f>::new(loc, scale) { Ok(d) => d, Err(_) => return };
+                let x: $f = d.sample(&mut rng);
+                vassert!(rng.pos == 1, "Gumbel: number of words consumed depends on the parameters");
+                vassert!(flog_n() == 2, "Gumbel: expected exactly two logarithms");
+                let (a0, _, r0) = flog_get(0);
+                let (a1, _, g) = flog_get(1);
+                vassert!(a0 == $oc(w0) as f64, "Gumbel: first logarithm is not taken of the OpenClosed01 draw");
+                vassert!(biteq64(a1, -r0), "Gumbel: second logarithm is not taken of -ln(u)");
+                // documented transform: location - scale * ln(-ln u)
+                vassert!(biteq64(x as f64, (loc - scale * (g as $f)) as f64), "Gumbel: sample is not location - scale * g");
+                kani::cover!(g == 2.0, "g = 2");
+                kani::cover!(g == 0.5, "g = 1/2");
+            }
+        }
+    };
+}
+//@ id: c07_gumbel_f64
+//@ prop: C07
+//@ tier: quick
+//@ cap: 600
+//@ funcs: Gumbel::<f64>::new; Gumbel::<f64>::sample
+//@ bounds: every accepted (location, scale); every word; the standard quantity g = ln(-ln u) ranges over {0, -0, +-1, 2, 1/2, 3/4, -3} (free logged stub)
+//@ assumes: libm::log replaced by a free logging stub (algebraic structure only)
+c07_gumbel!(c07_gumbel_f64, f64, oc01_64);
+//@ id: c07_gumbel_f32
+//@ prop: C07
+//@ tier: quick
+//@ cap: 600
+//@ funcs: Gumbel::<f32>::new; Gumbel::<f32>::sample
+//@ bounds: as c07_gumbel_f64
+//@ assumes: libm::logf replaced by a free logging stub
+c07_gumbel!(c07_gumbel_f32, f32, oc01_32);
